@@ -18,7 +18,8 @@ Key(l, d, salt) == (l * 7919 + d * 104729 + Seed * 15485 + salt * 611953) % 1000
 PickDet(set, key) == LET q == SetToSeq(set) IN q[(key % Len(q)) + 1]
 
 CatsOf(p) == CASE p = "C02" -> {1} [] p = "C10" -> {1, 2, 3} [] p = "C06" -> {4} [] p = "C05" -> {5, 14}
-               [] p \in {"C08", "C09"} -> {6, 7} [] p = "C14" -> {8, 9} [] p = "C13" -> {10, 11} [] p = "C12" -> {12, 13}
+               [] p \in {"C08", "C09"} -> {6, 7}
+               [] p = "C07" -> {2, 3, 5, 6, 7, 9, 10, 12} [] p = "C14" -> {8, 9} [] p = "C13" -> {10, 11} [] p = "C12" -> {12, 13}
                [] OTHER -> 1..NCat         \* C07 and anything else: all categories
 Cats == 1..NCat
 
@@ -56,7 +57,10 @@ NextStep(x, l, d) ==
       cat0 == PickDet(pool, Key(l, d, 3))
       cands0 == StepCat(x, c, cat0)
       \* a category that offers nothing for this focus falls back to the collection functions
-      cands == IF cands0 = {} THEN StepCat(x, c, 2) ELSE cands0
+      cands1 == IF cands0 = {} THEN StepCat(x, c, 2) ELSE cands0
+      \* an "own" step is one charged to Prop whenever the category offers such steps
+      mine == {s \in cands1 : s.p = Prop}
+      cands == IF own /\ mine # {} THEN mine ELSE cands1
       q == SetToSeq(cands)
       draw(j) == q[(Key(l, d, 4 + j) % Len(q)) + 1]
       lively == {j \in 0..5 : NonEmptyOk(draw(j).e)}
